@@ -68,6 +68,25 @@ fn append_only_program(ctx: &Ctx, case: u64, r: &mut Rng, rep: &mut Report) {
     };
     let uni = Universe::from_states(sc.base.clone());
     let env = Env::single(uni.clone(), sc.key.clone());
+    // half of the repositories hold packs no index knows: what a backup that is still running (or was interrupted)
+    // has uploaded so far
+    if r.chance(1, 2) {
+        let copy = Universe::from_states(sc.base.clone());
+        copy.lock().recording = false;
+        let env2 = Env::single(copy.clone(), sc.key.clone());
+        let _ = (Cmd::Backup { model: sc.next_model.clone(), force: true, time: 1_700_999_000, dry_run: false }).run(&env2);
+        let st2 = copy.state(0);
+        let mut n = 0u64;
+        let mut g = uni.lock();
+        for id in st2.ids(FileType::Pack) {
+            if !g.stores[0].has(FileType::Pack, &id) {
+                let _ = g.stores[0].put(FileType::Pack, &id, st2.get(FileType::Pack, &id).unwrap().clone());
+                n += 1;
+            }
+        }
+        drop(g);
+        rep.count("unindexed_packs_planted", n);
+    }
     // switch to append-only (allowed change)
     if let Err(e) = (Cmd::ApplyConfig { opts: ConfigOptions::default().set_append_only(true) }).run(&env).unwrap_or_else(|p| Err(p)) {
         rep.violation(case, "set-append-only-failed", e, json!({"config": sc.cfg.desc}));
@@ -262,7 +281,7 @@ pub fn run(ctx: &Ctx) -> (Report, Meta) {
     rep.merge({ let mut cb = c2.clone(); cb.case_base = 1_000_000; run_cases(&cb, n_dry, &|c, i, r, rep| dry_run_case(c, i + 1_000_000, r, rep)) });
     let meta = Meta {
         level: "fault_enumeration",
-        rule: "append-only: random programs of 3-10 public repository operations (backup, forget, prune with generated options, copy-into, merge(+delete), rewrite(+forget), repair index, repair snapshots(+delete), config changes) on a repository switched to append-only, with an ONLINE monitor in the storage universe that fires on any remove of a snapshot/index/pack file and on any overwrite with different bytes; commands the model classifies as destructive must return Err with zero mutating storage events. dry-run: every command with a dry-run switch (+ prune_plan) on intact / pack-lost / index-lost repositories must produce zero write/remove events, judged after the storage has been quiet for 60 ms (detached library threads); dry-run backup tree id == real one. distinct_nontrivial = distinct (refuse|allowed|dry, command kind, repository state)".to_string(),
+        rule: "append-only: random programs of 3-10 public repository operations (backup, forget, prune with generated options, copy-into, merge(+delete), rewrite(+forget), repair index, repair snapshots(+delete), config changes) on a repository switched to append-only (half of them holding packs of a backup in progress that no index lists yet), with an ONLINE monitor in the storage universe that fires on any remove of a snapshot/index/pack file and on any overwrite with different bytes; commands the model classifies as destructive must return Err with zero mutating storage events. dry-run: every command with a dry-run switch (+ prune_plan) on intact / pack-lost / index-lost repositories must produce zero write/remove events, judged after the storage has been quiet for 60 ms (detached library threads); dry-run backup tree id == real one. distinct_nontrivial = distinct (refuse|allowed|dry, command kind, repository state)".to_string(),
         exhaustive: false,
         assumptions: vec![
             "key files are outside the statement (it names snapshot, index and pack files); key removal is not judged".to_string(),
